@@ -191,7 +191,13 @@ impl<'a> QState<'a> {
             Inner::Acc { acc } => {
                 if let Some(w) = v.world {
                     let mut held: Vec<(usize, usize, bool)> = colmap.iter().enumerate().map(|(i, c)| (arch, *c, self.site.muts[i])).collect();
-                    let accs = [*acc];
+                    // half of the time aim the nested access at the very column this visit holds
+                    let mut acc = *acc;
+                    if acc.ent % 2 == 0 && !colmap.is_empty() {
+                        acc.a = arch as u8;
+                        acc.col = colmap[(acc.ent as usize / 2) % colmap.len()] as u8;
+                    }
+                    let accs = [acc];
                     run_access::<W>(w, self.m, self.stats, &mut held, &accs, 0, 0);
                     self.stats.inc("inner_nested_access");
                 }
